@@ -1865,6 +1865,8 @@ def check_c17(A: Analysis, col: Collector):
 def evidence_is_set_by_submitter(A: Analysis, ev: ast.AST) -> bool:
     """`<job>.<flag>`: the flag is initialised False in Job.__init__ and set True in both expanders right
     after the worker call returned / the future completed (and nowhere in Job itself)."""
+    if isinstance(ev, ast.Compare) and len(ev.ops) == 1 and isinstance(ev.ops[0], ast.In):
+        return _record_is_filled_by_submitter(A, ev)
     if not (isinstance(ev, ast.Attribute)):
         return False
     flag = ev.attr
@@ -1903,6 +1905,50 @@ def evidence_is_set_by_submitter(A: Analysis, ev: ast.AST) -> bool:
             if not (prev_is_worker_call or in_completed_loop):
                 return False
     return True
+
+
+def _record_is_filled_by_submitter(A: Analysis, ev: ast.Compare) -> bool:
+    """`<job>.checksum in <record>`: the record is an attribute of the submitter that both expanders `.add()`
+    to right after the worker call returned / for each completed future, that nothing else adds to, and
+    that Submitter.__call__ empties (so a second submission does not inherit it)."""
+    if not (isinstance(ev.left, ast.Attribute) and ev.left.attr == "checksum"):
+        return False
+    rec = ev.comparators[0]
+    us = A.func("pydra.engine.submitter.NodeExecution.update_status")
+    attr = None
+    if isinstance(rec, ast.Attribute):
+        attr = rec.attr
+    elif isinstance(rec, ast.Name):
+        for k, d in A.rs.local_defs(us).get(rec.id, []):
+            if k == "assign" and isinstance(d, ast.Attribute):
+                attr = d.attr
+    if attr is None:
+        return False
+    sub = A.cls("pydra.engine.submitter.Submitter")
+    adders = {}
+    for f in A.repo.all_functions():
+        for c in A.calls(f):
+            if isinstance(c.func, ast.Attribute) and c.func.attr in ("add", "update") and isinstance(c.func.value, ast.Attribute) and c.func.value.attr == attr:
+                adders.setdefault(f.qualname, []).append(c)
+    if set(adders) != {f"{sub.qualname}.expand_workflow", f"{sub.qualname}.expand_workflow_async"}:
+        return False
+    for name in ("expand_workflow", "expand_workflow_async"):
+        fn = sub.find_method(name)
+        fetched = {e.id for a_ in walk_own(fn.node) if isinstance(a_, ast.Assign) and any(isinstance(c, ast.Call) and isinstance(c.func, ast.Attribute) and c.func.attr == "fetch_finished" for c in ast.walk(a_.value)) for t in a_.targets for e in (t.elts if isinstance(t, ast.Tuple) else [t]) if isinstance(e, ast.Name)}
+        for c in adders[fn.qualname]:
+            st = next(p_ for p_ in parents(c) if isinstance(p_, ast.stmt))
+            par = getattr(st, "_parent", None)
+            body = next((b for fld in ("body", "orelse", "finalbody") if isinstance(b := getattr(par, fld, None), list) and st in b), None)
+            if body is None:
+                return False
+            i = body.index(st)
+            prev_is_worker_call = i > 0 and any(isinstance(k, ast.Call) and isinstance(k.func, ast.Attribute) and k.func.attr in ("run", "submit") and (dotted(k.func.value) or "").endswith("worker") for k in ast.walk(body[i - 1]))
+            in_completed_loop = isinstance(par, ast.For) and i == 0 and bool(shape_names(par.iter) & fetched)
+            if not (prev_is_worker_call or in_completed_loop):
+                return False
+    call = sub.find_method("__call__")
+    cleared = any(isinstance(c.func, ast.Attribute) and c.func.attr == "clear" and isinstance(c.func.value, ast.Attribute) and c.func.value.attr == attr for c in A.calls(call)) or any(isinstance(n, ast.Assign) and any(isinstance(t, ast.Attribute) and t.attr == attr for t in n.targets) for n in walk_own(call.node))
+    return cleared
 
 
 def shape_names(node: ast.AST) -> set[str]:
